@@ -10,7 +10,8 @@ EXPLANATION = (
     "later taken from. D2: a step can leave the stage's body without entering the comparison loop only over an edge "
     "stating threshold <= 1. D3: the comparison loop iterates HashMap::values() of the step's whole link map (no "
     "take/skip/filter), its only exits are exhaustion and Err returns, and every iteration that continues has passed "
-    "both `materials ==` and `products ==` against a reference link taken from the same map (not the link itself). "
+    "both `materials ==` and `products ==` against a reference link taken from the same map (not the link itself); every local "
+    "type inside those maps has a derived PartialEq, or a hand-written one that compares whole fields / lengths. "
     "D4: the loops that build that map (loading, signature check, sub-layouts) have no early exit, so the compared set "
     "is the complete set of valid authorised links.")
 DECIDED = ["D1 agreement precedes representative selection, rules, inspections and summary", "D2 skip only for threshold <= 1",
@@ -22,6 +23,9 @@ FLOORS = {"C07/D1": 5, "C07/D2": 1, "C07/D3": 4, "C07/D4": 3}
 
 
 def run(ctx):
+    # the equality the comparison uses is structural for everything inside the artifact maps
+    from . import shared as _shared
+    _shared.check_structural_equality(ctx, "C07/D3", "models::link::metadata::LinkMetadata", {"materials", "products"})
     P = Pipeline(ctx)
     if not P.ok or P.gate is None:
         ctx.bad("C07/D1", "anchor", "in_toto_verify / signature gate not found (failing closed)")
